@@ -158,6 +158,13 @@ impl CacheRead {
     {
         let z = ZipArchive::new(Box::new(reader) as Box<dyn ReadSeek>)
             .context("Failed to parse cache entry")?;
+        // Object names are unique when an entry is written. The directory of the
+        // archive is not checksummed, so two members with the same name mean that
+        // a name was corrupted; the lookup by name would then hand out the
+        // contents of the wrong member.
+        if z.file_names().count() != z.len() {
+            bail!("Duplicate object name in cache entry");
+        }
         Ok(CacheRead { zip: z })
     }
 
